@@ -1,20 +1,24 @@
 """C13 — tokens and syntax tree are lossless over the source text."""
-import os, sys, json, collections
+import os, sys, json, collections, re
 from vlib import *
 
 MODULES = ["Mimium.Props.C13"]
-FIELDS = ["src_hex", "classes", "tokens", "token_indices", "leading", "trailing", "leaves", "flags"]
+FIELDS = ["src_hex", "classes", "tokens", "token_indices", "leading", "trailing", "leaves", "flags", "tree", "errors", "relabels"]
+NODE_RE = re.compile(r"\((\w+)")
 
 
 def new_stats():
     return {"evaluations": 0, "distinct": set(), "nontrivial": set(), "disagreements": 0, "impl_property_failures": 0,
             "samples": [], "judge": collections.Counter(), "ntok_hist": collections.Counter(), "kinds": collections.Counter(),
-            "trivia": 0, "dropped": 0, "max_bytes": 0}
+            "trivia": 0, "dropped": 0, "max_bytes": 0, "tokseq_ok": 0, "node_kinds": collections.Counter(), "with_errors": 0,
+            "error_classes": collections.Counter(), "relabelled": 0}
 
 
 def merge(a, b):
-    for k in ("evaluations", "disagreements", "impl_property_failures", "trivia", "dropped"):
+    for k in ("evaluations", "disagreements", "impl_property_failures", "trivia", "dropped", "tokseq_ok", "with_errors", "relabelled"):
         a[k] += b[k]
+    a["node_kinds"].update(b["node_kinds"])
+    a["error_classes"].update(b["error_classes"])
     a["distinct"] |= b["distinct"]
     a["nontrivial"] |= b["nontrivial"]
     a["judge"].update(b["judge"])
@@ -28,7 +32,7 @@ def unhex(h):
     return "" if h == "-" else bytes.fromhex(h).decode("utf-8", "replace")
 
 
-def compare_stream(name, mmh_args, stats, stdin_data=None, count_kinds=False):
+def compare_stream(name, mmh_args, stats, stdin_data=None, count_kinds=False, light=False):
     """run the real front end and the Lean model + judge on one stream of source texts; returns problem records"""
     p = mmh("C13", mmh_args, input=stdin_data)
     if p.returncode != 0:
@@ -42,10 +46,15 @@ def compare_stream(name, mmh_args, stats, stdin_data=None, count_kinds=False):
     for a, b in zip(il, ml):
         if not a:
             continue
+        if light and b.startswith("ok\tok\t"):
+            # exhaustive token-sequence streams (distinct by construction): agreeing cases are only counted
+            stats["evaluations"] += 1
+            stats["tokseq_ok"] += 1
+            continue
         f = a.split("\t")
         g = b.split("\t")
         stats["evaluations"] += 1
-        if len(f) < 8 or len(g) < 6:
+        if len(f) < 11 or len(g) < 6:
             problems.append({"kind": "bad-line", "stream": name, "impl": a[:300], "driver": b[:300]})
             continue
         agree, judge, ntok, ntriv, ndrop, detail = g[:6]
@@ -63,6 +72,13 @@ def compare_stream(name, mmh_args, stats, stdin_data=None, count_kinds=False):
         if count_kinds and f[2] not in ("-", "PANIC"):
             for t in f[2].split(","):
                 stats["kinds"][t.split(":")[0]] += 1
+            stats["node_kinds"].update(NODE_RE.findall(f[8]))
+            if f[9] not in ("-", "PANIC"):
+                stats["with_errors"] += 1
+                for e in f[9].split(" ## "):
+                    stats["error_classes"][e.split("|", 1)[-1].split(",")[0].split(":")[0][:40]] += 1
+            if f[10] not in ("-", "PANIC"):
+                stats["relabelled"] += 1
         if agree != "ok":
             stats["disagreements"] += 1
         if judge.startswith("bad"):
@@ -70,22 +86,25 @@ def compare_stream(name, mmh_args, stats, stdin_data=None, count_kinds=False):
         if agree == "ok" and not judge.startswith("bad"):
             if len(stats["samples"]) < 3 and ntok >= 4 and stats["evaluations"] % 4999 == 7:
                 stats["samples"].append({"src": ("<kind sequence>" if is_k else unhex(f[0])[:200]), "impl_tokens": f[2][:300], "impl_token_indices": f[3][:100],
-                                         "impl_trailing": f[5][:100], "impl_leaves": f[6][:100], "model": "identical", "judge": judge})
+                                         "impl_trailing": f[5][:100], "impl_leaves": f[6][:100], "impl_tree": f[8][:300], "impl_errors": f[9][:200],
+                                         "model": "identical", "judge": judge})
             if judge == "ok":
                 continue
         rec = {"kind": "case", "stream": name, "agree": agree, "judge": judge, "model_value": detail[:2000]}
         rec.update({k: v for k, v in zip(FIELDS, f)})
         rec["src"] = "<kind sequence> " + f[2] if is_k else unhex(f[0])
-        if len(f) > 8:
-            rec["file"] = f[8]
+        if len(f) > 11:
+            rec["file"] = f[11]
         problems.append(rec)
     return problems
 
 
 def main(ctx, args):
     ctx.assumptions += [
-        "Model/Lexer.lean, Model/Preparse.lean are hand ports of tokenizer.rs / preparser.rs; Model/CstBuilder.lean abstracts cst_parser.rs "
-        "to its builder primitives; the tie is the correspondence run below plus the shape checks of tools/extract.py (gen_c13)",
+        "Model/Lexer.lean, Model/Preparse.lean are hand ports of tokenizer.rs / preparser.rs; Model/CstBuilder.lean models the builder "
+        "primitives; Model/CstGrammar.lean is a literal port of every grammar function of cst_parser.rs; the tie is the correspondence run "
+        "below (tree, error list and relabelled kinds compared exactly) plus the shape checks and the body-hash pins of tools/extract.py "
+        "(gen_c13, gen_cst_grammar / tools/cst_grammar.json)",
         "source text is List Char with UTF-8 byte offsets (Char.utf8Size); Unicode XID classes are a parameter of the model, supplied per "
         "case by the harness from the same unicode-ident crate that chumsky uses",
         "chumsky combinator semantics (choice = first success, repeated, and_is/not, text::int/digits/ident/newline) as read from chumsky "
@@ -137,6 +156,21 @@ def main(ctx, args):
         jobs = [(f"enum{k}", ["enum", str(maxlen), str(k), str(shards)], k == 0) for k in range(shards)]
         klen = 6 if ctx.tier == "quick" else 7
         jobs.append(("kinds", ["kinds", str(klen)], False))
+        # C04's enumeration alphabet: the real parse_cst vs the ported grammar on every token sequence
+        jpath = os.path.join(LEAN, "Mimium", "Gen", "extracted.json")
+        info = json.load(open(jpath))
+        if "C04_alphabet" in info:
+            full_len, core_len = (3, 5) if ctx.tier == "quick" else (4, 6)
+            fsh, csh = (12, 8) if ctx.tier == "quick" else (384, 96)
+            for k in range(fsh):
+                jobs.append((f"tokseq-full{k}", ["tokseq", jpath, "full", str(full_len), "sep", str(k), str(fsh)], False, True))
+            for k in range(csh):
+                jobs.append((f"tokseq-core{k}", ["tokseq", jpath, "core", str(core_len), "sep", str(k), str(csh)], False, True))
+            jobs.append(("tokseq-full-nosep", ["tokseq", jpath, "full", "2", "nosep", "0", "1"], True, False))
+            ctx.coverage["exhaustive_scope_token_sequences"] = (
+                f"all sequences of <= {full_len} tokens over the {len(info['C04_alphabet'])} canonical spellings of C04's alphabet and of "
+                f"<= {core_len} tokens over its 14-kind core, joined by one space; <= 2 without separator: green tree, error list and "
+                "relabelled kinds of the real parse_cst compared exactly with Model/CstGrammar.lean")
         nrand = 16 if ctx.tier == "quick" else 64
         per = 20000 if ctx.tier == "quick" else 100000
         for i in range(nrand):
@@ -144,7 +178,7 @@ def main(ctx, args):
 
         def work(job):
             st = new_stats()
-            pr = compare_stream(job[0], job[1], st, count_kinds=job[2])
+            pr = compare_stream(job[0], job[1], st, count_kinds=job[2], light=(len(job) > 3 and job[3]))
             return st, pr
         for st, pr in parallel(jobs, work):
             merge(stats, st)
@@ -194,6 +228,8 @@ def main(ctx, args):
     ctx.coverage.update({
         "evaluations": stats["evaluations"],
         "distinct_nontrivial": len(stats["nontrivial"]),
+        "cst_comparison": "green tree (S-expression with node kinds and raw token indices), error list (token index + Display string) and "
+                          "relabelled token kinds of the real parse_cst == ported grammar (Model/CstGrammar.lean) on every case of every stream",
         "rule": "source texts: exhaustive small scope + random fragment/Unicode soup and mutated windows of shipped sources + every "
                 ".mmm file under /repo; distinct = distinct text; non-trivial = the implementation produced at least two tokens besides Eof",
         "samples": stats["samples"][:6] or [{"note": "no sample recorded (replay mode or tiny run)"}],
@@ -207,6 +243,12 @@ def main(ctx, args):
             "trivia_tokens": stats["trivia"], "trivia_in_dropped_class": stats["dropped"],
             "max_source_bytes": stats["max_bytes"],
             "token_kinds_seen(sampled streams)": len(stats["kinds"]),
+            "token_sequence_cases_agreeing(counted only)": stats["tokseq_ok"],
+            "cst_node_kinds_seen(sampled streams)": dict(stats["node_kinds"].most_common()),
+            "cst_node_kinds_never_seen": sorted(set(json.load(open(os.path.join(VERIF, "tools", "cst_grammar.json")))["syntax_kinds"]) - set(stats["node_kinds"])),
+            "cases_with_parser_errors(sampled streams)": stats["with_errors"],
+            "parser_error_classes(sampled streams)": dict(stats["error_classes"].most_common(30)),
+            "cases_with_relabelled_tokens(sampled streams)": stats["relabelled"],
             "token_kinds_never_seen": sorted(set(json.load(open(os.path.join(LEAN, "Mimium", "Gen", "extracted.json"))).get("C13_kind_names", [])) - set(stats["kinds"])),
         },
     })
